@@ -269,7 +269,11 @@ fn enable_service_file(output_path: &Path, service: &SystemdUnitFile) {
     // it is still useful when instantiating the unit via a symlink.
     if let Some(template_base) = template_base {
         if template_instance.is_none() {
-            if let Some(default_instance) = service.lookup(INSTALL_SECTION, "DefaultInstance") {
+            // an instance name is a file name, it cannot contain a path separator
+            let default_instance = service
+                .lookup(INSTALL_SECTION, "DefaultInstance")
+                .filter(|instance| !instance.contains('/'));
+            if let Some(default_instance) = default_instance {
                 service_name = OsString::from(format!(
                     "{template_base}@{default_instance}.{}",
                     service.unit_type()
